@@ -60,7 +60,7 @@ func (a *Allocator) AllocateBlockMemory(p peer.ID, amount uint64) <-chan error {
 		a.peerStatuses[p] = status
 	}
 
-	if (a.totalAllocatedAllPeers+amount <= a.maxAllowedAllocatedTotal) && (status.totalAllocated+amount <= a.maxAllowedAllocatedPerPeer) && len(status.pendingAllocations) == 0 {
+	if fits(a.totalAllocatedAllPeers, amount, a.maxAllowedAllocatedTotal) && fits(status.totalAllocated, amount, a.maxAllowedAllocatedPerPeer) && len(status.pendingAllocations) == 0 {
 		a.totalAllocatedAllPeers += amount
 		status.totalAllocated += amount
 		log.Debugw("bytes allocated", "amount", amount, "peer", p, "peer total", status.totalAllocated, "global total", a.totalAllocatedAllPeers)
@@ -148,10 +148,10 @@ func (a *Allocator) processPendingAllocations() {
 
 func (a *Allocator) processNextPendingAllocationForPeer(nextPeer *peerStatus) bool {
 	pendingAllocation := nextPeer.pendingAllocations[0]
-	if a.totalAllocatedAllPeers+pendingAllocation.amount > a.maxAllowedAllocatedTotal {
+	if !fits(a.totalAllocatedAllPeers, pendingAllocation.amount, a.maxAllowedAllocatedTotal) {
 		return false
 	}
-	if nextPeer.totalAllocated+pendingAllocation.amount > a.maxAllowedAllocatedPerPeer {
+	if !fits(nextPeer.totalAllocated, pendingAllocation.amount, a.maxAllowedAllocatedPerPeer) {
 		return false
 	}
 	a.totalAllocatedAllPeers += pendingAllocation.amount
@@ -211,6 +211,11 @@ func (ps *peerStatus) Index() int {
 	return ps.index
 }
 
+// fits reports whether current+amount <= max, without overflowing uint64
+func fits(current, amount, max uint64) bool {
+	return current <= max && amount <= max-current
+}
+
 func makePeerStatusCompare(maxPerPeer uint64) pq.ElemComparator {
 	return func(a, b pq.Elem) bool {
 		pa := a.(*peerStatus)
@@ -224,10 +229,10 @@ func makePeerStatusCompare(maxPerPeer uint64) pq.ElemComparator {
 		if len(pb.pendingAllocations) == 0 {
 			return true
 		}
-		if pa.totalAllocated+pa.pendingAllocations[0].amount > maxPerPeer {
+		if !fits(pa.totalAllocated, pa.pendingAllocations[0].amount, maxPerPeer) {
 			return false
 		}
-		if pb.totalAllocated+pb.pendingAllocations[0].amount > maxPerPeer {
+		if !fits(pb.totalAllocated, pb.pendingAllocations[0].amount, maxPerPeer) {
 			return true
 		}
 		if pa.pendingAllocations[0].allocIndex < pb.pendingAllocations[0].allocIndex {
